@@ -2,7 +2,7 @@
     Only statements here; proofs are in Proofs/BuffersProofs.v.
     [grow] (allocation policy, only assumed to hand out at least what is asked: [grow_ok])
     and [junk] (contents of uninitialised memory) are universally quantified everywhere. *)
-From KV Require Import Bytes RustInt Buffers BuffersProofs.
+From KV Require Import Bytes RustInt Buffers BuffersProofs BuffersHttp1Link.
 Open Scope N_scope.
 
 (** WriteableBytes: for every constructor (new / with_capacity c / From<BytesMut> with any
@@ -120,6 +120,44 @@ Theorem unguarded_cancel_refuted :
   exists b cs max k, wf b /\
     ~ poll_spec (contents b) cs max (Some k) (read_poll grow_vec (junk_of []) false false b cs max (Some k)).
 Proof. exact BuffersProofs.unguarded_cancel_refuted. Qed.
+
+(** [read_to_end_or_max] is transcribed a second time in Model/Http1Read.v ([rtem_reserve], [rtem_loop]:
+    the buffer as (bytes, capacity), the reader as a byte string with a delivery schedule behind [Take]),
+    where C02/C07/C20 use it.  The two transcriptions are the same function: the inner [reserve] picks
+    the same capacity, ... *)
+Theorem read_reserve_transcriptions_agree : forall growH growB junk (read : nat) (b : buf),
+  grows_agree growH growB -> grow_ok growB -> b_len b = capacity b -> (read <= capacity b)%nat ->
+  exists b2, rtm_reserve growB junk read b = Ok b2 /\
+             capacity b2 = Http1Read.rtem_reserve growH read (capacity b) /\
+             b_len b2 = capacity b2 /\ (read + 32 <= capacity b2)%nat /\
+             firstn (capacity b) (b_data b2) = b_data b.
+Proof. exact rtem_reserve_is_rtm_reserve. Qed.
+
+(** ... the loops give the same answer from corresponding states, whatever the fuel, the reader's
+    data, its schedule (every burst delivers something) and the way it ends (closes / stalls until
+    the caller's timeout / fails), ... *)
+Theorem read_loop_transcriptions_agree : forall growH growB junk mode (max : nat),
+  grows_agree growH growB -> grow_ok growB ->
+  forall fuel buf cap tl d sched b cs,
+  Http1Read.sched_pos sched ->
+  b_len b = capacity b -> capacity b = cap -> firstn (length buf) (b_data b) = buf -> (length buf < cap)%nat ->
+  translates cs mode d sched tl ->
+  same_answer (Http1Read.rtem_loop growH fuel mode max buf cap tl (Http1Read.mk_reader d sched))
+              (rtm_loop growB junk true fuel (N.of_nat max) (length buf) b cs (Some 0%nat)).
+Proof. exact loops_in_lockstep. Qed.
+
+(** ... and what [Http1Body::read_to_bytes] does with the helper -- [with_capacity(len)], the bytes read
+    with the head copied in, [read_to_end_or_max(.., take(left), len)] under a timeout -- is [read_poll]
+    on the translated reader with a caller that drops the future at the first [Pending]. *)
+Theorem read_to_bytes_uses_read_poll : forall growH growB junk mode early cl limit d sched,
+  grows_agree growH growB -> grow_ok growB -> Http1Read.sched_pos sched ->
+  let len := N.to_nat (N.min cl limit) in
+  let buf := firstn len early in
+  (length buf < len)%nat ->
+  same_answer (Http1Read.read_to_bytes growH mode early cl limit (Http1Read.mk_reader d sched))
+              (read_poll growB junk false true (bm_of junk buf (len - length buf))
+                 (strm mode d sched (len - length buf)) (N.of_nat len) (Some 0%nat)).
+Proof. exact read_to_bytes_is_read_poll. Qed.
 
 (** kvarn::read::file: the whole file for every chunking; [None] exactly when a read fails. *)
 Theorem read_file_whole : forall grow junk (chunks : list bytes),
@@ -260,6 +298,15 @@ Example read_ex_full_buffer :
 Proof. vm_compute. split; reflexivity. Qed.
 Example read_file_ex : read_file grow_vec (junk_of []) (data_stream [B "hel"; B "lo"]) = Ok (B "hello").
 Proof. vm_compute. reflexivity. Qed.
+
+Example vec_growth_policies_agree : grows_agree Http1Read.vec_grow grow_vec.
+Proof. exact vec_grows_agree. Qed.
+Example read_to_bytes_link_ex :
+  same_answer (Http1Read.read_to_bytes Http1Read.vec_grow 1 (B "he") 9 100 (Http1Read.mk_reader (B "llo") [2%nat; 1%nat]))
+              (read_poll grow_vec (junk_of []) false true (bm_of (junk_of []) (B "he") 7)
+                 (strm 1 (B "llo") [2%nat; 1%nat] 7) 9 (Some 0%nat))
+  /\ Http1Read.read_to_bytes Http1Read.vec_grow 1 (B "he") 9 100 (Http1Read.mk_reader (B "llo") [2%nat; 1%nat]) = Err Http1Read.E_TIMEDOUT.
+Proof. vm_compute. auto. Qed.
 
 Example writeable_counts_ex :
   wb_session_n grow_vec (junk_of (B "JUNK")) (WCap 3) [B "ab"; B "cde"; []; B "f"] = Ok (B "abcdef", 6%nat).
